@@ -237,6 +237,11 @@ class Baton:
             ok = fn.startswith(self.tracer_files)
             self._code_cache[code] = ok
         if ok:
+            if self.write_lines:
+                # function entry is a site too: "switch right after the k-th
+                # entry into this function" (rarely called helpers are where
+                # per-process caches and lazily built tables live)
+                _current.after_write = (code.co_filename, -code.co_firstlineno)
             return self._local_trace
         return None
 
@@ -396,6 +401,8 @@ class LineCounter:
         ok = self._cache.get(code)
         if ok is None:
             ok = self._cache[code] = code.co_filename.startswith(self.prefixes)
+        if ok and self.write_lines:
+            self._after = (code.co_filename, -code.co_firstlineno)
         return self._local if ok else None
 
     def _local(self, frame, event, arg):
